@@ -6,7 +6,7 @@
      {"side":"E"|"D", "kind":0 lit|1 match|2 long rep|3 short rep|9 coder reset,
       "len":n, "idx": distance (match) / rep index (rep) / literal mode (-1 plain, else distance used),
       "st": state after, "r":[reps after]}
-     {"side":"X"}   starts a new run (both machines back to M0, encoder symbol list emptied)
+     {"side":"X"}   starts a new run (both machines back to M0); the file also ends with such a line
    Within a run all encoder events come first, then the decoder events of the stream the encoder produced.
 
    Accepted iff
@@ -19,13 +19,13 @@ EXTENDS LzmaSymbols, Json, IOUtils
 CONSTANT CheckAgree
 
 Rec == ndJsonDeserialize(IOEnv.TRACE)
-VARIABLES l, te, td, syms, di
-tvars == <<l, te, td, syms, di, vars>>
+VARIABLES l, te, td, x0, di, ne
+tvars == <<l, te, td, x0, di, ne, vars>>
 Ev == Rec[l]
 
 Obs(e) == [st |-> e.st, r |-> <<e.r[1], e.r[2], e.r[3], e.r[4]>>]
 
-TInit == Init /\ l = 1 /\ te = M0 /\ td = M0 /\ syms = <<>> /\ di = 1 /\ TLCSet(1, 1)
+TInit == Init /\ l = 1 /\ te = M0 /\ td = M0 /\ x0 = 0 /\ di = 1 /\ ne = 0 /\ TLCSet(1, 1)
 
 \* image of an encoder event: literals and (rep) matches go through encode_symbol's `back`; the end marker
 \* (idx = -1) calls encode_match directly
@@ -54,21 +54,24 @@ TEnc ==
   /\ l <= Len(Rec) /\ Ev.side = "E" /\ WellFormed(Ev)
   /\ Ev.kind = 0 => Ev.idx = EncLitMode(te)
   /\ te' = EncImg(te, Ev) /\ te' = Obs(Ev)
-  /\ syms' = Append(syms, [kind |-> Ev.kind, len |-> Ev.len, idx |-> Ev.idx, m |-> Obs(Ev)])
-  /\ UNCHANGED <<td, di>>
+  /\ ne' = ne + 1 /\ UNCHANGED <<td, x0, di>>
 
+\* the encoder events of a run are the lines x0+1 .. ; the di-th decoder event is compared with line x0+di
 TDec ==
   /\ l <= Len(Rec) /\ Ev.side = "D" /\ WellFormed(Ev)
   /\ Ev.kind = 0 => Ev.idx = DecLitMode(td)
   /\ td' = DecImg(td, Ev) /\ td' = Obs(Ev)
-  /\ CheckAgree => /\ di <= Len(syms)
-                   /\ syms[di].kind = Ev.kind /\ syms[di].len = Ev.len /\ syms[di].idx = Ev.idx
-                   /\ syms[di].m = Obs(Ev)
-  /\ di' = di + 1 /\ UNCHANGED <<te, syms>>
+  /\ CheckAgree => /\ x0 + di <= Len(Rec)
+                   /\ LET e == Rec[x0 + di] IN
+                      /\ e.side = "E"
+                      /\ e.kind = Ev.kind /\ e.len = Ev.len /\ e.idx = Ev.idx
+                      /\ Obs(e) = Obs(Ev)
+  /\ di' = di + 1 /\ UNCHANGED <<te, x0, ne>>
 
 TReset ==
   /\ l <= Len(Rec) /\ Ev.side = "X"
-  /\ te' = M0 /\ td' = M0 /\ syms' = <<>> /\ di' = 1
+  /\ (CheckAgree /\ di > 1) => di - 1 = ne      \* the decoder saw every symbol the encoder produced
+  /\ te' = M0 /\ td' = M0 /\ x0' = l /\ di' = 1 /\ ne' = 0
 
 TNext == l' = l + 1 /\ (TEnc \/ TDec \/ TReset) /\ UNCHANGED vars
 TSpec == TInit /\ [][TNext]_tvars
